@@ -138,40 +138,71 @@ type Case struct {
 	Root string `json:"root,omitempty"`
 	// Entry: "" Template API (NewFS.Load.Fill.Render), "vue" Vue.Render, "fragment" Vue.RenderFragment.
 	Entry string `json:"entry,omitempty"`
+	// After: the page is rendered AFTER a failing variant of itself (same templates, same variable
+	// names with recognisably different values, a failing function call late in the page and in the
+	// content it supplies) - "fresh": the failing render runs on another engine of the same process,
+	// "same": on the same engine. The rendering of the case must meet the usual expectation.
+	After string `json:"after,omitempty"`
 }
 
 // ---------------------------------------------------------------------------------------------
 // Render through vuego
 // ---------------------------------------------------------------------------------------------
 
-func render(c Case) (string, error) {
+// engine is one vuego engine over the case's file set (Template API or Vue, per c.Entry).
+type engine struct {
+	c   Case
+	tpl vuego.Template
+	vue *vuego.Vue
+}
+
+func newEngine(c Case) *engine {
 	m := fstest.MapFS{}
 	for k, v := range files(c) {
 		m[k] = &fstest.MapFile{Data: []byte(v)}
 	}
-	data := rootValue(c)
-	var buf bytes.Buffer
-	w := &limited{w: &buf, left: 8 << 20}
+	e := &engine{c: c}
+	// boom is the function the failing variant of the page calls (see after.go); never called by
+	// the case itself
+	funcs := vuego.FuncMap{"boom": func(s string) (string, error) { return "", fmt.Errorf("boom: %s rejected", s) }}
 	if c.Entry != "" {
-		v := vuego.NewVue(m)
+		e.vue = vuego.NewVue(m)
 		if c.Short {
-			vuego.WithComponents()(v)
+			vuego.WithComponents()(e.vue)
 		}
-		var err error
-		if c.Entry == "fragment" {
-			err = v.RenderFragment(w, "page.vuego", data)
-		} else {
-			err = v.Render(w, "page.vuego", data)
+		if c.After != "" {
+			e.vue.Funcs(funcs)
 		}
-		return buf.String(), err
+		return e
 	}
 	var opts []vuego.LoadOption
 	if c.Short {
 		opts = append(opts, vuego.WithComponents())
 	}
-	tpl := vuego.NewFS(m, opts...)
-	err := tpl.Load("page.vuego").Fill(data).Render(context.Background(), w)
+	if c.After != "" {
+		opts = append(opts, vuego.WithFuncs(funcs))
+	}
+	e.tpl = vuego.NewFS(m, opts...)
+	return e
+}
+
+func (e *engine) render(file string, data any) (string, error) {
+	var buf bytes.Buffer
+	w := &limited{w: &buf, left: 8 << 20}
+	var err error
+	switch {
+	case e.vue != nil && e.c.Entry == "fragment":
+		err = e.vue.RenderFragment(w, file, data)
+	case e.vue != nil:
+		err = e.vue.Render(w, file, data)
+	default:
+		err = e.tpl.Load(file).Fill(data).Render(context.Background(), w)
+	}
 	return buf.String(), err
+}
+
+func render(c Case) (string, error) {
+	return newEngine(c).render("page.vuego", rootValue(c))
 }
 
 // limited turns an output that never ends (a cyclic node list handed to the serialiser) into a
@@ -249,7 +280,15 @@ func check(c Case) error {
 }
 
 func checkRendered(c Case, want []*hx.N) error {
+	if c.After != "" {
+		return checkAfterFailure(c, want)
+	}
 	got, err := render(c)
+	return compareOutput(c, want, got, err)
+}
+
+// compareOutput holds one rendering of the page against the model's expectation.
+func compareOutput(c Case, want []*hx.N, got string, err error) error {
 	if err != nil {
 		return fmt.Errorf("render failed: %v\n%s", err, describe(c))
 	}
@@ -424,6 +463,7 @@ func TestProp(t *testing.T) {
 		if n%shards != shard {
 			return true
 		}
+		c = withAfter(c, n/shards)
 		nt, cls := classify(c)
 		if !run.Each(rec, "core", c, nt, cls, check) {
 			done = false
@@ -438,6 +478,7 @@ func TestProp(t *testing.T) {
 			if edge%shards != shard {
 				return true
 			}
+			c = withAfter(c, edge/shards)
 			nt, cls := classify(c)
 			cls = append(cls, "supplied-content-renders-nothing")
 			if !run.Each(rec, "core", c, nt, cls, check) {
@@ -454,6 +495,7 @@ func TestProp(t *testing.T) {
 			if wsN%shards != shard {
 				return true
 			}
+			c = withAfter(c, wsN/shards)
 			nt, cls := classify(c)
 			cls = append(cls, "white-space-significant-in-pre")
 			if !run.Each(rec, "core", c, true || nt, cls, check) {
@@ -471,6 +513,7 @@ func TestProp(t *testing.T) {
 				if shapes%shards != shard {
 					return true
 				}
+				c = withAfter(c, shapes/shards)
 				_, cls := classify(c)
 				if !run.Each(rec, "core", c, true, cls, check) {
 					done = false
@@ -487,6 +530,7 @@ func TestProp(t *testing.T) {
 			if hand%shards != shard {
 				return true
 			}
+			c = withAfter(c, hand/shards)
 			nt, cls := classify(c)
 			if !run.Each(rec, "core", c, nt, cls, check) {
 				done = false
@@ -503,18 +547,19 @@ func TestProp(t *testing.T) {
 		// a render is still spinning in its goroutine: report what was found and get out
 		return
 	}
-	run.Rapid(t, rec, "random", func(t *rapid.T) Case { return genCase(t, ex, rec) }, classify, check)
+	after := func(t *rapid.T, c Case) Case { return withAfter(c, rapid.IntRange(0, 7).Draw(t, "after-failure")) }
+	run.Rapid(t, rec, "random", func(t *rapid.T) Case { return after(t, genCase(t, ex, rec)) }, classify, check)
 	if compose.Hung() {
 		return
 	}
-	run.Rapid(t, rec, "shape", genShape, func(c Case) (bool, []string) {
+	run.Rapid(t, rec, "shape", func(t *rapid.T) Case { return after(t, genShape(t)) }, func(c Case) (bool, []string) {
 		_, cls := classify(c)
 		return true, cls
 	}, check)
 	if compose.Hung() {
 		return
 	}
-	run.Rapid(t, rec, "space", genWS, func(c Case) (bool, []string) {
+	run.Rapid(t, rec, "space", func(t *rapid.T) Case { return after(t, genWS(t)) }, func(c Case) (bool, []string) {
 		_, cls := classify(c)
 		return true, append(cls, "white-space-significant-in-pre")
 	}, check)
